@@ -5,4 +5,4 @@ cd /repo || exit 2
 git apply --3way "$P" 2>/dev/null || git apply "$P" || { echo "PATCH DOES NOT APPLY"; exit 3; }
 cd /verif && ./check $ID --tier $T 2>&1 | grep -E "VIOLATION|BROKEN|done|stream|KNOWN" | cut -c1-220
 cd /repo && git reset -q --hard HEAD && git status --short | head -3
-cd /verif && git checkout -- lean/QrlewModel/Generated 2>/dev/null; true
+cd /verif && git checkout -- lean/QrlewModel/Generated evidence 2>/dev/null; true
